@@ -323,6 +323,13 @@ struct SeekRun {
       // after a seek, usually verify immediately with a read
       if (last_was_seek && t.below(4) != 3) { bool eof; if (!do_read(1 + (int)t.below(6000), eof)) return false; if (t.below(2)) { if (!do_read(1 + (int)t.below(6000), eof)) return false; } }
     }
+    // the link table reads the same wherever the history left the handle (C09's table, re-read after arbitrary seeks)
+    if (ov_streams(&vf) != (long)c.links.size()) return r.fail("ov_streams=%ld after the history, file has %zu links [hist %s] [%s]", ov_streams(&vf), c.links.size(), hist.c_str(), desc.c_str());
+    for (size_t l = 0; l < c.links.size(); l++) {
+      vorbis_info *vi = ov_info(&vf, (int)l);
+      if (!vi || vi->channels != c.links[l].channels || vi->rate != c.links[l].rate) return r.fail("after the history ov_info(%zu) reports %d channels at %ld Hz, the link has %d at %ld [hist %s] [%s]", l, vi ? vi->channels : -1, vi ? vi->rate : -1L, c.links[l].channels, c.links[l].rate, hist.c_str(), desc.c_str());
+      if (ov_serialnumber(&vf, (int)l) != (long)c.links[l].serial || ov_pcm_total(&vf, (int)l) != g.len[l]) return r.fail("after the history link %zu reads serial %ld length %lld, the link has %d / %lld [hist %s] [%s]", l, ov_serialnumber(&vf, (int)l), (long long)ov_pcm_total(&vf, (int)l), c.links[l].serial, (long long)g.len[l], hist.c_str(), desc.c_str());
+    }
     if (seeks_ok) r.label("has successful seek");
     if (c.links.size() > 1 && seeks_ok) r.label("chained with seek");
     if (mode == 20) { any_nontrivial = toggle_seek_read; if (toggle_seek_read) r.label("toggle after a read, then seek, then read"); }
